@@ -11,8 +11,8 @@ if ! git -C $WT apply $DIR/patch.diff; then echo "{\"prop\":\"$PROP\",\"dir\":\"
 SUITE=$(/verif/tools/baseline.sh $WT 2>&1 | tail -4 | grep -c "100% tests passed")
 DEMO_ORIG=na; DEMO_PATCH=na
 if [ -f $DIR/demo.cc ]; then
-  g++ -std=c++14 -w -I /repo/au/code $DIR/demo.cc -o $WT/demo_orig >/dev/null 2>&1 && { AU_INC=/repo/au/code timeout 300 $WT/demo_orig /repo/au/code >/dev/null 2>&1; DEMO_ORIG=$?; } || DEMO_ORIG=compile-error
-  g++ -std=c++14 -w -I $WT/au/code $DIR/demo.cc -o $WT/demo_patch >/dev/null 2>&1 && { AU_INC=$WT/au/code timeout 300 $WT/demo_patch $WT/au/code >/dev/null 2>&1; DEMO_PATCH=$?; } || DEMO_PATCH=compile-error
+  g++ -std=c++14 -w -I /repo/au/code $DIR/demo.cc -o $WT/demo_orig >/dev/null 2>&1 && { AU_INC=/repo/au/code AU_INCLUDE=/repo/au/code AU_INCLUDE_DIR=/repo/au/code AU_CODE_DIR=/repo/au/code AU_ROOT=/repo timeout 300 $WT/demo_orig /repo/au/code >/dev/null 2>&1; DEMO_ORIG=$?; } || DEMO_ORIG=compile-error
+  g++ -std=c++14 -w -I $WT/au/code $DIR/demo.cc -o $WT/demo_patch >/dev/null 2>&1 && { AU_INC=$WT/au/code AU_INCLUDE=$WT/au/code AU_INCLUDE_DIR=$WT/au/code AU_CODE_DIR=$WT/au/code AU_ROOT=$WT timeout 300 $WT/demo_patch $WT/au/code >/dev/null 2>&1; DEMO_PATCH=$?; } || DEMO_PATCH=compile-error
 fi
 if [ -f $DIR/demo.sh ]; then
   (cd $DIR && timeout 600 bash $DIR/demo.sh /repo >/dev/null 2>&1); DEMO_ORIG=$?
